@@ -525,7 +525,7 @@ func exRun(t *rapid.T, st *vkit.Stats, prof string) {
 	add("release", 5, m.ruleRelease)
 	add("advance", 2, m.ruleAdvance)
 	add("cancelRateLimit", 1, m.ruleCancelRateLimit)
-	t.Repeat(acts)
+	t.Repeat(vkit.NoStarve(acts, nil))
 
 	// ---- drain: open every gate, let every wait elapse
 	m.tr("drain")
